@@ -10,56 +10,54 @@ Theorems quantify over **every** op list `pre` run from a fresh engine (includin
 snapshot installs inside `pre`) and every *quiet* continuation `post` (any puts / deletes / CAS on other
 keys, failing CAS on the key itself, clock advances, cleanups, checkpoints, snapshot generation — no bound
 on length).  What is excluded from `post`, and why, is stated below with kernel-checked counterexamples:
-restart / crash / snapshot install lose or resurrect TTL state on the code as it is (findings F41–F46);
-huge TTLs panic (F40); above 10 leased keys the cleanup samples (F47).
+restart / crash / snapshot install lose or resurrect TTL state on the code as it is (findings F41–F46).
+Fixed in /repo and now proved without side conditions: huge TTLs are clamped (F40), the cleanup looks at
+every lease entry (F47), the File engine reloads the lease section of a snapshot (F45).
 -/
 namespace DEngine.C23
 open DEngine.MiniKv DEngine.Ttl
 
 /-- **ttl_visible_until_due.** After `put k v ttl=t` (at time `T`), for every quiet continuation that ends
-before `T + t`, the key reads `v` — however many cleanups ran, whatever happened to other keys, whatever
+before `T + t` (`t` clamped to 1000 years, `clampTtl`), the key reads `v` — however many cleanups ran, whatever happened to other keys, whatever
 an earlier TTL of the same key was (re-put with a new TTL replaces the expiry), and failed CAS on `k`
 do not disturb it. -/
 theorem ttl_visible_until_due (e : Eng) (t0 : Nat) (pre post : List Op) (k v t : Nat)
     (hq : ∀ op ∈ post, quiet k v op = true)
-    (hov : (exec (init e t0) pre).now + t < overflowAt)
-    (hdue : (exec (init e t0) (pre ++ .put k v (some t) :: post)).now < (exec (init e t0) pre).now + t) :
+    (hdue : (exec (init e t0) (pre ++ .put k v (some t) :: post)).now <
+      (exec (init e t0) pre).now + clampTtl t) :
     get (exec (init e t0) (pre ++ .put k v (some t) :: post)).data k = some v := by
   rw [exec_append, exec_cons] at hdue ⊢
   generalize exec (init e t0) pre = s at *
   have hstep : (step s (.put k v (some t))).1 =
-      { s with data := set s.data k v, lease := set s.lease k (s.now + t)
-               wal := walAppend s (.ins k v (s.now + t)) } := by
-    simp only [step]; rw [if_neg (by omega)]
+      { s with data := set s.data k v, lease := set s.lease k (s.now + clampTtl t)
+               wal := walAppend s (.ins k v (s.now + clampTtl t)) } := rfl
   rw [hstep] at hdue ⊢
   exact (exec_live_ttl post _ hq (by simp) (by simp) hdue).1
 
 /-- **ttl_removed_after_cleanup.** After `put k v ttl=t` at time `T`, once a cleanup runs at a time `≥ T + t`
-the key reads as absent, and stays absent over every strictly quiet continuation.  Hypothesis `hlen`: at
-that cleanup the lease table holds at most 10 entries — above that `may_have_expired_keys` only samples 10
-entries of the table and the cleanup may be skipped (see `sampled_cleanup_can_miss`). -/
+the key reads as absent, and stays absent over every strictly quiet continuation — whatever the size of
+the lease table (since fix F47). -/
 theorem ttl_removed_after_cleanup (e : Eng) (t0 : Nat) (pre mid post : List Op) (k v t : Nat)
     (hqm : ∀ op ∈ mid, quietStrict k v op = true) (hqp : ∀ op ∈ post, quietStrict k v op = true)
-    (hov : (exec (init e t0) pre).now + t < overflowAt)
-    (hdue : (exec (init e t0) pre).now + t ≤ (exec (init e t0) (pre ++ .put k v (some t) :: mid)).now)
-    (hlen : (exec (init e t0) (pre ++ .put k v (some t) :: mid)).lease.length ≤ 10) :
+    (hdue : (exec (init e t0) pre).now + clampTtl t ≤
+      (exec (init e t0) (pre ++ .put k v (some t) :: mid)).now) :
     get (exec (init e t0) (pre ++ .put k v (some t) :: (mid ++ .cleanup :: post))).data k = none := by
-  rw [exec_append, exec_cons] at hdue hlen
+  rw [exec_append, exec_cons] at hdue
   rw [exec_append, exec_cons, exec_append, exec_cons]
   generalize exec (init e t0) pre = s at *
   have hstep : (step s (.put k v (some t))).1 =
-      { s with data := set s.data k v, lease := set s.lease k (s.now + t)
-               wal := walAppend s (.ins k v (s.now + t)) } := by
-    simp only [step]; rw [if_neg (by omega)]
-  rw [hstep] at hdue hlen ⊢
-  have h0 : LiveOrGone { s with data := set s.data k v, lease := set s.lease k (s.now + t)
-                                wal := walAppend s (.ins k v (s.now + t)) } k v (s.now + t) :=
+      { s with data := set s.data k v, lease := set s.lease k (s.now + clampTtl t)
+               wal := walAppend s (.ins k v (s.now + clampTtl t)) } := rfl
+  rw [hstep] at hdue ⊢
+  have h0 : LiveOrGone { s with data := set s.data k v, lease := set s.lease k (s.now + clampTtl t)
+                                wal := walAppend s (.ins k v (s.now + clampTtl t)) } k v
+      (s.now + clampTtl t) :=
     Or.inl ⟨by simp, by simp⟩
   have h1 := exec_liveOrGone mid _ hqm h0
   generalize exec _ mid = s1 at *
   have h2 : get (step s1 .cleanup).1.data k = none ∧ get (step s1 .cleanup).1.lease k = none := by
     rcases h1 with ⟨hd, hl⟩ | ⟨hd, hl⟩
-    · have hm := mayHaveExpired_of_due hl hdue hlen
+    · have hm := mayHaveExpired_of_due hl hdue
       simp only [step, hm, if_true]
       exact ⟨get_eraseAll_of_mem _ _ (mem_expiredKeys.mpr ⟨_, hl, hdue⟩), get_dropExpired_due hl hdue⟩
     · exact step_absent (k := k) (v := v) (op := .cleanup) rfl hd hl
@@ -147,7 +145,7 @@ theorem rocks_install_partial (s : St) (h : s.eng = .rocks) (d l : AMap) (hs : s
 
 example : ∀ k d, get (exec (init .rocks 1000) [.put 1 7 (some 5)]).lease k = some d →
     (exec (init .rocks 1000) [.put 1 7 (some 5)]).now < d := by
-  intro k d; simp [exec, step, init, overflowAt, MiniKv.set, MiniKv.erase, MiniKv.get]
+  intro k d; simp [exec, step, init, clampTtl, maxTtl, MiniKv.set, MiniKv.erase, MiniKv.get]
   intro h1 h2; omega
 
 
@@ -177,9 +175,7 @@ crashes allowed before and after the cleanup. -/
 def RemovedAfterCleanupAcrossRestartStatement : Prop :=
   ∀ (e : Eng) (t0 : Nat) (pre mid post : List Op) (k v t : Nat),
     (∀ op ∈ mid, quietOrRestart k v op = true) → (∀ op ∈ post, quietOrRestart k v op = true) →
-    (exec (init e t0) pre).now + t < overflowAt →
-    (exec (init e t0) pre).now + t ≤ (exec (init e t0) (pre ++ .put k v (some t) :: mid)).now →
-    (exec (init e t0) (pre ++ .put k v (some t) :: mid)).lease.length ≤ 10 →
+    (exec (init e t0) pre).now + clampTtl t ≤ (exec (init e t0) (pre ++ .put k v (some t) :: mid)).now →
     get (exec (init e t0) (pre ++ .put k v (some t) :: (mid ++ .cleanup :: post))).data k = none
 
 /-- F41 / F46 (RocksDB restart / install; same root cause on the File `stop()` path): `TtlLease::reload` drops lease entries that are already due but nobody deletes the
@@ -187,8 +183,7 @@ data ⇒ a key whose TTL ran out before a restart is never removed.  Witness on 
 `put k v ttl=1; adv 2; restart; cleanup` ⇒ `k` still reads `v`. -/
 theorem removed_across_restart_false : ¬ RemovedAfterCleanupAcrossRestartStatement := by
   intro h
-  have := h .rocks 1000 [] [.adv 2, .restart] [] 1 7 1 (by decide) (by decide) (by decide) (by decide)
-    (by decide)
+  have := h .rocks 1000 [] [.adv 2, .restart] [] 1 7 1 (by decide) (by decide) (by decide)
   revert this; decide
 
 /-- F42 / F43 (File engine, restart / crash): the lease is injected after `FileStateMachine::new` replayed the WAL and
@@ -220,12 +215,18 @@ theorem rocks_stale_ttl_after_crash :
       [.put 1 7 (some 1), .restart, .put 1 8 (some 100), .crash, .adv 2, .cleanup]).data 1 = none := by
   decide
 
-/-- F45 (File engine): `apply_snapshot_from_file` never reaches its lease-reload branch (the record loop
-swallows the lease section), so the TTLs of the snapshot are lost and the local table is kept. -/
-theorem file_install_keeps_local_lease :
-    (exec (init .file 1000) [.put 1 7 (some 1), .snap, .put 1 8 (some 50), .install]).lease = [(1, 1050)] ∧
+/-- F45 (fixed): the File engine reloads the lease section of the snapshot it installs — the snapshot's
+table replaces the local one.  (Old behaviour: local table kept, `[(1, 1050)]` in this example.) -/
+theorem file_install_reloads_lease :
+    (exec (init .file 1000) [.put 1 7 (some 10), .snap, .put 1 8 (some 50), .install]).lease = [(1, 1010)] ∧
     get (exec (init .file 1000) [.put 1 7 (some 1), .snap, .del 1, .install, .adv 2, .cleanup]).data 1
-      = some 7 := by
+      = none := by
+  decide
+
+/-- F45b: after the fix the File install shares F46's residue: an entry already due at install time is
+dropped by `reload` while the installed data keeps the key. -/
+theorem file_install_after_due :
+    get (exec (init .file 1000) [.put 1 7 (some 1), .snap, .adv 2, .install, .cleanup]).data 1 = some 7 := by
   decide
 
 /-- F46 (RocksDB install after the deadline). -/
@@ -233,19 +234,18 @@ theorem rocks_install_after_due :
     get (exec (init .rocks 1000) [.put 1 7 (some 1), .snap, .adv 2, .install, .cleanup]).data 1 = some 7 := by
   decide
 
-/-- F40 (both engines): `now + ttl` is computed with a panicking `SystemTime + Duration`. -/
-theorem huge_ttl_panics (s : St) (k v t : Nat) (h : overflowAt ≤ s.now + t) :
-    (step s (.put k v (some t))).2 = .panic := by
-  simp [step, h]
+/-- F40 (fixed): a huge client TTL no longer panics `apply_chunk`; it is clamped to `maxTtl`. -/
+theorem huge_ttl_clamped (s : St) (k v t : Nat) :
+    (step s (.put k v (some t))).2 = .none ∧
+      get (step s (.put k v (some t))).1.lease k = some (s.now + min t maxTtl) := by
+  simp [step, clampTtl]
 
-/-- F47: above 10 lease entries `may_have_expired_keys` looks at 10 entries only; if none of those is
-due, `lease_background_cleanup` returns without scanning and a due key survives the cleanup.  (In the
-model the sample is the first 10 entries in list order; in the code it is the first 10 of the DashMap
-iteration, whose order is random per instance.) -/
-theorem sampled_cleanup_can_miss :
+/-- F47 (fixed): with more than 10 lease entries a due key is still removed (the old 10-entry sample
+of `may_have_expired_keys` could skip the cleanup; this was the model witness of the miss). -/
+theorem cleanup_scans_every_entry :
     let ops := [Op.put 12 1 (some 1)] ++ (List.range 11).map (fun i => Op.put i 1 (some 100)) ++
       [.adv 2, .cleanup]
-    get (exec (init .rocks 1000) ops).data 12 = some 1 := by
+    get (exec (init .rocks 1000) ops).data 12 = none := by
   decide
 
 end DEngine.C23
